@@ -331,7 +331,7 @@ class Gen:
                 body_pre += '\n proof { ' + spec['body_start'] + ' }\n'
             body_post = ''
             if spec.get('body_end'):
-                body_post = '\n proof { ' + spec['body_end'] + ' }\n'
+                body_post = '\n; proof { ' + spec['body_end'] + ' }\n'
             if spec.get('iter_name'):
                 mi = re.compile(r'\sin\s').search(m, ks, bo)
                 if not mi:
@@ -556,6 +556,7 @@ class Gen:
         parts.append('use std::ops::{self, Deref, DerefMut, Index, IndexMut, Neg, Add, Sub, Mul, Div, AddAssign, SubAssign, MulAssign, DivAssign};')
         parts.append('use std::convert::{From, Into, TryInto, TryFrom};')
         parts.append('use std::mem::swap;')
+        parts.append('use std::cmp;')
         for pre in unit.preludes:
             parts.append('use crate::%s::*;' % pre.split('_')[0] if pre != 'alea' else 'use crate::alea;')
         parts.append('/*USE-LITS*/')
